@@ -346,7 +346,10 @@ def model_build():
     ok, log = C.coq_make(["Sv/Emit.vo"])
     if not ok:
         return False, None, log
-    return C.ocaml_build("sv_model", EXTRACT_V, DRIVER_ML)
+    # C.ocaml_build keeps one directory per name under .work/ocaml: a run against another tree (VERIF_REPO) extracts from
+    # ITS regenerated tables and must not overwrite the binary the registered check uses
+    name = "sv_model" + ("_" + os.path.basename(os.path.dirname(C.COQ)) if C.ALT else "")
+    return C.ocaml_build(name, EXTRACT_V, DRIVER_ML)
 
 
 # ------------------------------------------------------------------------------------ program text per configuration
@@ -510,10 +513,8 @@ def _wrap_stmt(m, s):
 
 
 def canon_cat(e):
-    """The emitter drops the braces of a single-item concatenation whose item is itself a concatenation or a
-    `repeat` (`{{a, b}}` prints `{a, b}`, `{x, {a repeat 2}}` prints `{x, {2{a}}}`; value-preserving).  The emit
-    model prints every concatenation with its braces, so programs are brought to the canonical form in which
-    the two shapes do not occur: {{..}} -> {..}, item {a repeat n} -> item a repeat n."""
+    """python mirror of coq/Sv/Emit.v `canon` (the emitter's brace removal); not used by the check — kept for
+    diagnosing an emit-model difference by hand"""
     k = e[0]
     if k in ("lit", "var", "sel"):
         return e
@@ -565,7 +566,127 @@ def map_exprs(f, m):
     return out
 
 
+def avoid_sysfn_readback(m):
+    """Inside always_ff, `$signed(q)` / `$unsigned(q)` of a register q (a variable some always_ff assigns) is rewritten
+    to read an input instead: the analyzer's ff-opt classification does not see reads made through a system
+    function (Factor::gather_ff has no SystemFunctionCall arm), so the default engines let such a read see the
+    value written earlier in the same clock edge (finding ff-opt-sysfn-readback; corpus probe only)."""
+    D = m["decls"]
+    regs = set()
+    for it in m["items"]:
+        if it[0] == "ff":
+            wr = set()
+            for s in (it[1] or []) + it[2]:
+                G.stmt_rw(s, set(), wr)
+            regs |= wr
+    ins = G.inputs_of(m)
+
+    def repl(x):
+        want2 = D[x][3]
+        c = [i for i in ins if D[i][3]] if want2 else ins
+        c = c or ins
+        # keep the choice a function of the program alone
+        return c[x % len(c)] if c else x
+
+    def fe(e):
+        k = e[0]
+        if k in ("lit", "var", "sel"):
+            return e
+        if k == "sign":
+            a = fe(e[2])
+            if a[0] == "var" and a[1] in regs:
+                a = ("var", repl(a[1]))
+            return ("sign", e[1], a)
+        if k in ("un", "cast"):
+            return (k, e[1], fe(e[2]))
+        if k == "bin":
+            return ("bin", e[1], fe(e[2]), fe(e[3]))
+        if k == "tern":
+            return ("tern", fe(e[1]), fe(e[2]), fe(e[3]))
+        if k == "cat":
+            return ("cat", [(fe(a), n) for a, n in e[1]])
+        raise ValueError(k)
+
+    items = []
+    for it in m["items"]:
+        if it[0] == "ff":
+            items.append(("ff", None if it[1] is None else [map_exprs_stmt(fe, s) for s in it[1]],
+                          [map_exprs_stmt(fe, s) for s in it[2]]))
+        else:
+            items.append(it)
+    out = dict(m)
+    out["items"] = items
+    return out
+
+
+def avoid_tern_signed_calls(m):
+    """`if c ? $signed(a) : $signed(b)`: veryl's engines sign-extend the result even when the enclosing context is
+    unsigned (finding ternary-of-signed-calls; corpus probe only) — the else branch loses its $signed here"""
+    def fe(e):
+        k = e[0]
+        if k in ("lit", "var", "sel"):
+            return e
+        if k in ("un", "cast", "sign"):
+            return (k, e[1], fe(e[2]))
+        if k == "bin":
+            return ("bin", e[1], fe(e[2]), fe(e[3]))
+        if k == "tern":
+            a, b = fe(e[2]), fe(e[3])
+            if a[0] == "sign" and a[1] and b[0] == "sign" and b[1]:
+                b = b[2]
+            return ("tern", fe(e[1]), a, b)
+        if k == "cat":
+            return ("cat", [(fe(a), n) for a, n in e[1]])
+        raise ValueError(k)
+    return map_exprs(fe, m)
+
+
+def _first_lit(e):
+    k = e[0]
+    if k == "lit":
+        return e
+    if k in ("un", "cast", "sign"):
+        return _first_lit(e[2])
+    if k == "bin":
+        return _first_lit(e[2]) or _first_lit(e[3])
+    if k == "tern":
+        return _first_lit(e[1]) or _first_lit(e[2]) or _first_lit(e[3])
+    if k == "cat":
+        for a, _ in e[1]:
+            r = _first_lit(a)
+            if r:
+                return r
+    return None
+
+
+def avoid_const_default(m):
+    """always_comb: `x = <constant operator expression>;` followed by a read of x in the same block — the engines
+    propagate the constant folded at its SELF-DETERMINED width instead of the value assigned (finding
+    comb-const-default-readback; corpus probe only).  A constant right-hand side that is not a plain literal is
+    replaced by one of its literals in always_comb blocks."""
+    def fs(s):
+        k = s[0]
+        if k == "assign":
+            rd = set()
+            G.expr_vars(s[2], rd)
+            if not rd and s[2][0] != "lit":
+                return ("assign", s[1], _first_lit(s[2]) or ("lit", 1, False, 0, 0))
+            return s
+        if k == "asel":
+            return s
+        if k == "if":
+            return ("if", s[1], [fs(x) for x in s[2]], [fs(x) for x in s[3]])
+        if k == "case":
+            return ("case", s[1], [(pats, [fs(x) for x in b]) for pats, b in s[2]], [fs(x) for x in s[3]])
+        raise ValueError(k)
+    items = [("comb", [fs(x) for x in it[1]]) if it[0] == "comb" else it for it in m["items"]]
+    out = dict(m)
+    out["items"] = items
+    return out
+
+
 def into_core(m):
+    m = avoid_const_default(avoid_tern_signed_calls(avoid_sysfn_readback(m)))
     items = []
     for it in m["items"]:
         if it[0] == "assign":
@@ -576,7 +697,7 @@ def into_core(m):
             items.append(("ff", None if it[1] is None else [_wrap_stmt(m, s) for s in it[1]], [_wrap_stmt(m, s) for s in it[2]]))
     out = dict(m)
     out["items"] = items
-    return map_exprs(canon_cat, G.fix_module(out))
+    return G.fix_module(out)
 
 
 # ------------------------------------------------------------------------------------ cases
@@ -586,12 +707,13 @@ def corpus_cases():
     out = []
     if os.path.isdir(d):
         for f in sorted(os.listdir(d)):
-            if f.endswith(".json"):
+            if f.endswith(".json") and f != "pool.json":
                 j = json.load(open(os.path.join(d, f)))
                 rows = [(k, [(int(p, 16), 0) for p in vals]) for k, vals in j["rows"]]
                 cfgs = [tuple(c) for c in j.get("cfgs", [])] or BASE_CFGS
                 out.append({"m": G.module_from_json(j["module"]), "rows": rows, "cfgs": cfgs, "tag": "corpus:" + f,
-                            "known_key": j.get("known_key"), "xfree": bool(j.get("xfree"))})
+                            "known_key": j.get("known_key"), "known_kinds": j.get("known_kinds") or ["sv-vs-sim"],
+                            "xfree": bool(j.get("xfree"))})
     return out
 
 
@@ -611,12 +733,41 @@ def gen_cases(rng, n, cycles):
         m = into_core(G.gen_program(rng, **prof))
         stim = G.gen_stimulus(rng, m, cycles, p_reset=0.07)
         rows = stim_kinds(rng, stim, 0.07)
-        # the 8 [build] configurations with generic port kinds, plus declared kinds / explicit lists
-        cfgs = list(BASE_CFGS)
-        for _ in range(4):
-            cfgs.append((rng.randrange(2), rng.randrange(4), rng.randrange(3), rng.randrange(5), rng.randrange(2)))
-        cfgs.append((rng.randrange(2), rng.randrange(4), 0, 0, 1))
-        out.append({"m": m, "rows": rows, "cfgs": cfgs, "tag": "gen:%d" % i, "known_key": None, "xfree": True})
+        out.append({"m": m, "rows": rows, "cfgs": random_cfgs(rng), "tag": "gen:%d" % i, "known_key": None, "xfree": True})
+    return out
+
+
+POOL = os.path.join(C.VERIF, "corpus", "C01", "pool.json")
+
+
+def random_cfgs(rng):
+    """the 8 [build] configurations with generic port kinds, 4 random (build, declared kinds, implicit/explicit
+    list) combinations and one more explicit list"""
+    cfgs = list(BASE_CFGS)
+    for _ in range(4):
+        cfgs.append((rng.randrange(2), rng.randrange(4), rng.randrange(3), rng.randrange(5), rng.randrange(2)))
+    cfgs.append((rng.randrange(2), rng.randrange(4), 0, 0, 1))
+    return cfgs
+
+
+def pool_cases(rng, n):
+    """The generated stream is a FIXED pool (corpus/C01/pool.json, built once by gen_cases + evaluate on the unchanged
+    tree, kept: programs on which every comparison held under 13 configurations).  The seed picks the subset and
+    the configurations.  Reason: on fresh random programs the unchanged simulator deviates from the emitted
+    SystemVerilog about once in 300 programs in ways that are findings of their own (see KNOWN_FINDINGS C01:
+    ff-opt-sysfn-readback, ternary-of-signed-calls, comb-const-default-readback — all found by the random stream);
+    a check must not alarm on the unchanged tree for any seed."""
+    if not os.path.exists(POOL):
+        return []
+    ents = json.load(open(POOL))["entries"]
+    idx = list(range(len(ents)))
+    rng.shuffle(idx)
+    out = []
+    for i in idx[:n]:
+        e = ents[i]
+        rows = [(k, [(int(p, 16), 0) for p in vals]) for k, vals in e["rows"]]
+        out.append({"m": G.module_from_json(e["module"]), "rows": rows, "cfgs": random_cfgs(rng), "tag": e["tag"],
+                    "known_key": None, "xfree": True})
     return out
 
 
@@ -747,13 +898,37 @@ def shrink_failure(binary, model, tables, case, cfg, key):
     """smaller program / stimulus with the same kind of failure under the same configuration"""
     from .. import rtl_sim as S
 
+    def self_assigns(m):
+        found = []
+
+        def fs(s):
+            if s[0] == "assign" and G.strip_to_var(s[2]) == s[1]:
+                found.append(s)
+            elif s[0] == "if":
+                for x in s[2] + s[3]:
+                    fs(x)
+            elif s[0] == "case":
+                for _, b in s[2]:
+                    for x in b:
+                        fs(x)
+                for x in s[3]:
+                    fs(x)
+        for it in m["items"]:
+            if it[0] == "assign":
+                fs(("assign", it[1], it[2]))
+            else:
+                for x in (it[1] if it[0] == "comb" else (it[1] or []) + it[2]):
+                    fs(x)
+        return bool(found)
+
     def pred_batch(cands):
         jobs = [({"m": m, "rows": rows, "cfgs": [cfg], "tag": "shrink", "known_key": None, "xfree": False}, cfg) for m, rows in cands]
         try:
             rs = evaluate(binary, model, jobs, tables)
         except Exception:
             return [False] * len(cands)
-        return [any(k == key for k, _ in r["fail"]) for r in rs]
+        # a candidate holding a self-assignment `x = x` (the engines treat those specially) is never taken
+        return [any(k == key for k, _ in r["fail"]) and not self_assigns(mm) for r, (mm, _) in zip(rs, cands)]
 
     try:
         m2, rows2 = S.shrink_batch(case["m"], case["rows"], pred_batch, rounds=10, width=32)
@@ -837,8 +1012,9 @@ def run(tier, seed, replay):
     # 5. corpus + generated programs
     rng = random.Random(seed * 1000003 + 101)
     n = QUICK_N if tier == "quick" else THOROUGH_N
-    cycles = QUICK_CYCLES if tier == "quick" else THOROUGH_CYCLES
-    cases = corpus_cases() + gen_cases(rng, n, cycles)
+    cases = corpus_cases() + pool_cases(rng, n)
+    res.obligation("the program pool corpus/C01/pool.json holds at least %d programs" % n,
+                   sum(1 for c in cases if c["tag"].startswith("pool")) >= min(n, 40))
     jobs = [(c, cfg) for c in cases for cfg in c["cfgs"]]
     t0 = time.time()
     results = []
@@ -870,29 +1046,36 @@ def run(tier, seed, replay):
             notcov[r.get("why", "?")[:60]] += 1
         kk = c.get("known_key")
         for key, what in r["fail"]:
-            if kk and key == "sv-vs-sim":
+            if kk and key in c.get("known_kinds", ()):
                 known_seen[kk] += 1
                 failures.setdefault((kk, c["tag"]), (r, kk, what))
             else:
                 failures.setdefault((key, c["tag"]), (r, key, what))
 
-    # a known-finding probe that diverges is reported under its key; everything else is a violation
-    for (key, tag), (r, k, what) in sorted(failures.items(), key=lambda x: (x[0][0], x[0][1]))[:12]:
+    # a known-finding probe that diverges is reported under its key; everything else is a violation.
+    # Behavioural failures (with a concrete program) first; at most 3 programs per kind.
+    PRIO = {"sv-vs-sim": 0, "sv-xz": 1, "sim-vs-reference": 2, "panic": 3, "sim-xz": 4, "emit-model": 6, "model-defect": 7}
+    ordered = sorted(failures.items(), key=lambda x: (PRIO.get(x[1][1], 5), x[0][1]))
+    taken = Counter()
+    for (key, tag), (r, k, what) in ordered:
+        if taken[k] >= 3:
+            continue
+        taken[k] += 1
         c = r["case"]
         m2, rows2 = c["m"], c["rows"]
-        if k in ("sv-vs-sim", "sim-vs-reference", "emit-model") and not c.get("known_key") and not tag.startswith("corpus"):
+        if k in ("sv-vs-sim", "sim-vs-reference", "emit-model") and not c.get("known_key") and tag.startswith(("pool", "gen")):
             m2, rows2 = shrink_failure(binary, model, tables, c, r["cfg"], k)
         rd = replay_dict(c, r["cfg"], r, m2, rows2)
         rd["what"] = what
         if k == "model-defect":
+            if not proved and "proved core" in what:
+                continue        # the theorem this instance belongs to no longer holds for the regenerated tables
             rd["model-defect"] = True
             res.violation("correspondence", "%s [%s]: %s" % (tag, cfg_name(r["cfg"]), what), dict(rd, no_longer_checks="µSV model"),
                           no_input=True)
-        elif k == "sim-vs-reference":
-            res.violation(k, "%s [%s]: %s" % (tag, cfg_name(r["cfg"]), what), rd)
         elif k == "emit-model":
             # the emitter no longer prints what the model says: does the emitted text still behave like the simulator?
-            if any(kk == "sv-vs-sim" for kk, _ in r["fail"]):
+            if any(kk in ("sv-vs-sim", "sv-xz") for kk, _ in r["fail"]):
                 continue
             res.violation("correspondence", "%s [%s]: %s" % (tag, cfg_name(r["cfg"]), what),
                           dict(rd, no_longer_checks="emit model vs real emitter"), no_input=True)
@@ -931,9 +1114,41 @@ def run(tier, seed, replay):
                    total > 0 and status["ok"] >= 0.9 * len(compared),
                    json.dumps(dict(status)))
     for r in results:
-        if r["status"] == "ok" and r["case"]["tag"].startswith("gen"):
+        if r["status"] == "ok" and r["case"]["tag"].startswith("pool"):
             res.sample({"tag": r["case"]["tag"], "configuration": cfg_name(r["cfg"]),
                         "veryl": veryl_text(r["case"]["m"], r["cfg"])[:1500], "emitted_sv": r["sv"][:1500],
                         "trace_first_rows": [["%x" % p for p, _ in row] for row in r["sim"][:4]]})
             break
     return res.finish()
+
+
+# ------------------------------------------------------------------------------------ dev tool: (re)build the pool
+def build_pool(first_seed, last_seed, out_path):
+    """python3 -m vp.props.c01 <first> <last> <out.json>: generate programs with gen_cases, evaluate them on the tree
+    under 13 configurations each, keep those on which every comparison holds.  Not used by the check."""
+    tables = T.extract(C.REPO)
+    ok, binary, log = C.harness_build("vh-emitsim")
+    assert ok, log[-500:]
+    okm, model, mlog = model_build()
+    assert okm, mlog[-500:]
+    pool, rejected = [], []
+    for seed in range(first_seed, last_seed):
+        rng = random.Random(seed * 7919 + 13)
+        cases = gen_cases(rng, 40, THOROUGH_CYCLES)
+        rs = evaluate(binary, model, [(c, cfg) for c in cases for cfg in c["cfgs"]], tables)
+        byc = {}
+        for r in rs:
+            byc.setdefault(r["case"]["tag"], []).append(r)
+        for c in cases:
+            if all(r["status"] == "ok" for r in byc[c["tag"]]):
+                pool.append({"tag": "pool:%d:%s" % (seed, c["tag"].split(":")[1]), "module": G.module_to_json(c["m"]),
+                             "rows": [[k, ["%x" % p for p, _ in vals]] for k, vals in c["rows"]]})
+            else:
+                bad = [(cfg_name(r["cfg"]), r["status"], r["fail"][:1]) for r in byc[c["tag"]] if r["status"] != "ok"][:2]
+                rejected.append({"seed": seed, "tag": c["tag"], "why": str(bad)[:400]})
+        print("seed", seed, "pool", len(pool), "rejected", len(rejected), flush=True)
+        json.dump({"entries": pool, "rejected": rejected}, open(out_path, "w"))
+
+
+if __name__ == "__main__":
+    build_pool(int(sys.argv[1]), int(sys.argv[2]), sys.argv[3])
